@@ -93,7 +93,7 @@ class Outcome:
         self.clause_hist = {}
 
 
-def judge(pid, scenarios, owned, nontrivial, tlc_mod, cfg='FBTrace.cfg', module='FBTrace.tla',
+def judge(pid, scenarios, owned, nontrivial, tlc_mod, cfg=None, module='FBTrace.tla',
           procs=16, detectors=()):
     """Run + validate scenarios; classify rejections for property pid."""
     out = Outcome()
@@ -105,7 +105,7 @@ def judge(pid, scenarios, owned, nontrivial, tlc_mod, cfg='FBTrace.cfg', module=
             out.machinery.append((t['id'], t['harness_error']))
         else:
             good.append(t)
-    verdicts, st = tlc_mod.validate(good, jobs=procs, cfg=cfg, module=module)
+    verdicts, st = tlc_mod.validate(good, jobs=procs, cfg=cfg, module=module, open_kf=open_kf_names())
     for k in ('states', 'distinct', 'jvms'):
         out.stats[k] += st.get(k, 0)
     out.stats['wall_s'] += st.get('wall_s', 0)
